@@ -21,7 +21,7 @@ TABLE = {
     ),
     "C03": dict(
         technique="model-based oracle: exhaustive enumeration of declarator derivation sequences x contexts + Hypothesis-generated full declarations, compared with the AST the inside-out declarator rule gives; specifier census",
-        text="Every derivation sequence up to length 3 (quick) / 4 (thorough) over 19 pointer/array/function constructors is placed in 11 declaration and type-name contexts and the parsed chain must equal the derivation order; Hypothesis generates complete declarations (specifier shuffles, multi-declarators, initializers with designators, bit-fields, bodies, K&R and prototype definitions). Complete inside the bound, statistical beyond; _Atomic(T) beyond its simplest form is excluded (known findings F12*).",
+        text="Every derivation sequence up to length 3 (quick) / 4 (thorough) over 20 pointer/array/function constructors is placed in 11 declaration and type-name contexts and the parsed chain must equal the derivation order; Hypothesis generates complete declarations (specifier shuffles, multi-declarators, initializers with designators, bit-fields, bodies, K&R and prototype definitions). Complete inside the bound, statistical beyond; _Atomic(T) beyond its simplest form is excluded (known findings F12*).",
         note="Trusted: the declaration model in vlib/cmodel.py (inside-out renderer and expected-AST builder) and the normalisation of TypeDecl.align / Typename.name.",
         ref="DESIGN.md section 4, C03",
     ),
